@@ -261,6 +261,7 @@ func sortEnd(s string, i int) int {
 
 type Script struct {
 	decls    []string
+	declKeys []string
 	declSeen map[string]bool
 	cmds     []string // assumptions / definitions in execution order
 	nfresh   int
@@ -276,6 +277,7 @@ func (sc *Script) Decl(key, text string) {
 	}
 	sc.declSeen[key] = true
 	sc.decls = append(sc.decls, text)
+	sc.declKeys = append(sc.declKeys, key)
 }
 
 func (sc *Script) Fresh(prefix string, sort Sort) Term {
@@ -330,8 +332,10 @@ func (sc *Script) Query(pos int, negGoal Term, wantModel bool) string {
 	var b strings.Builder
 	b.WriteString("(set-option :produce-models true)\n")
 	b.WriteString("(set-logic ALL)\n")
-	for _, d := range sc.decls {
-		if wantModel {
+	for i, d := range sc.decls {
+		// definitional axioms of spec functions give the contract its meaning: always kept
+		k := sc.declKeys[i]
+		if wantModel && !strings.HasPrefix(k, "spec:") && k != "bytes.eq" {
 			d = dropQuantifiedAsserts(d)
 		}
 		b.WriteString(d)
@@ -531,16 +535,12 @@ func getModel(file string, solver string, terms []string, timeout time.Duration)
 			inner = strings.TrimPrefix(inner, "(")
 			inner = strings.TrimSuffix(inner, ")")
 			inner = strings.TrimSpace(inner)
-			// inner = "(term value)"
+			// inner = "(term value)": the value is the last element
 			inner = strings.TrimPrefix(inner, "(")
 			inner = strings.TrimSuffix(inner, ")")
-			// value follows the term text
-			tt := terms[i]
-			idx := strings.Index(inner, tt)
-			if idx >= 0 {
-				vals[tt] = strings.TrimSpace(inner[idx+len(tt):])
-			} else {
-				vals[tt] = inner
+			parts := splitArgs(inner)
+			if len(parts) > 0 {
+				vals[terms[i]] = strings.TrimSpace(parts[len(parts)-1])
 			}
 		}
 		return vals, r.Output
